@@ -47,6 +47,7 @@ type rlCfg struct {
 }
 
 type rlScn struct {
+	ld    lateDial
 	open  func(i int) // opens context i if it is not open yet
 	s     *sim.S
 	cfg   rlCfg
@@ -182,6 +183,16 @@ func (c *rlScn) step(st string) {
 		c.pipes[p.Name] = p
 		s.Rec.Emit("mkpipe", "p", p.Name, "gated", f[0] == "conngated")
 		s.Net.Listener("l1").Offer(p)
+	case "predial":
+		c.ld.predial(s, c.sock)
+	case "ansconn":
+		if c.ld.pending(s) {
+			c.npipe++
+			p := s.Net.NewPipe(fmt.Sprintf("p%d", c.npipe))
+			c.pipes[p.Name] = p
+			s.Rec.Emit("mkpipe", "p", p.Name, "gated", false)
+			c.ld.answer(s, p)
+		}
 	case "drop":
 		if p := c.pipes[arg(1)]; p != nil && !p.IsClosed() {
 			s.Rec.Emit("drop", "p", p.Name)
@@ -359,6 +370,7 @@ func runRepLike(t *testing.T, cfg rlCfg, seed int64) sim.Result {
 			c.step(st)
 		}
 		c.step("sclose")
+		c.ld.finish(s)
 		for _, p := range c.pipes {
 			if p.Blocked() {
 				p.Release()
@@ -386,6 +398,10 @@ func rlScripted(kind string) []rlCfg {
 	sec := time.Second
 	d := rlCtxOpt{}
 	return []rlCfg{
+		// a connection attempt that completes after the socket was closed is refused by the closed protocol (nothing of the
+		// closed socket remains); one that completes while the socket is open is a connection like any other
+		{Kind: kind, Opts: []rlCtxOpt{d}, TTL: 8, SQ: 2, RQ: 2, Steps: []string{"predial", "sclose", "ansconn", "adv 1s"}},
+		{Kind: kind, Opts: []rlCtxOpt{d}, TTL: 8, SQ: 2, RQ: 2, Steps: []string{"predial", "ansconn", "req p1 1", "recv c0", "send c0", "sclose"}},
 		// two clients, two contexts: replies go back where the requests came from, in any reply order
 		{Kind: kind, Opts: []rlCtxOpt{d, d}, TTL: 8, SQ: 2, RQ: 2, Steps: []string{"conn", "conn", "req p1 1", "req p2 3", "recv c0", "recv c1", "send c1", "send c0", "send c0", "recv c0"}},
 		// depths around the TTL, garbled requests
